@@ -58,6 +58,7 @@ type FuncContract struct {
 	Sweep     bool     // synthesised by a zero-annotation no-panic sweep
 	UnboxNonNil bool   // assumption: pointers extracted from interface values are non-nil
 	AssumePre   bool   // preconditions of callees are assumed, not checked, in this unit (reported)
+	AssumePreFor []string // ... only for calls to these callees ("assumepre Recv.Method [A] reason")
 	IterFn    string   // "iterates f count E": calls parameter f once per index 0..E-1, in order
 	IterCount string
 	Yields    []Clause // facts about the arguments of the iter-th call (closure parameter names, iter)
@@ -299,7 +300,11 @@ func (db *ContractDB) parseContractFile(path, pkgPath string, prefix string, ass
 			case "unboxnonnil":
 				cur.UnboxNonNil = true
 			case "assumepre":
-				cur.AssumePre = true
+				if r := strings.TrimSpace(strings.SplitN(rest, "[A]", 2)[0]); r != "" {
+					cur.AssumePreFor = append(cur.AssumePreFor, r)
+				} else {
+					cur.AssumePre = true
+				}
 			case "iterates":
 				// iterates f count E
 				fs := strings.SplitN(rest, " ", 3)
